@@ -736,6 +736,21 @@ pub fn make_tls_client(sc: &J) -> TlsClient {
     } else {
         builder.with_no_client_auth()
     };
+    let mut cfg = cfg;
+    // optional: inflate the ClientHello with ALPN names (a ClientHello of several KiB)
+    let alpn = sc["client"]["alpn_bytes"].as_u64().unwrap_or(0) as usize;
+    if alpn > 0 {
+        let mut left = alpn;
+        let mut i = 0u32;
+        while left > 0 {
+            let n = std::cmp::min(left, 200);
+            let mut name = format!("proto-{:06}-", i).into_bytes();
+            name.resize(std::cmp::max(n, name.len()), b'x');
+            cfg.alpn_protocols.push(name);
+            left -= n;
+            i += 1;
+        }
+    }
     let conn = rustls::ClientConnection::new(
         Arc::new(cfg),
         ServerName::try_from("localhost").unwrap(),
